@@ -111,3 +111,7 @@ pub mod tasks {
         log_writer_run, pump_run, read_artifact_range, truncate_utf8,
     };
 }
+
+/// Authority-lock controls: per-thread pid for lock records and scripted `pid_liveness` answers
+/// (property C18).
+pub use crate::local_authority::verif_hooks as authority;
